@@ -275,6 +275,16 @@ theorem overlay_equals_oci (om : OpaqueMode) (kx : KX) (hc : compat om kx = true
   rw [served_stack]
   exact ovl_eq_applied hc p (layers_ok hok)
 
+/-- The `serve` of the composition theorem is the directory-level `readdir` (the function compared with
+node.go call by call): at every directory of a layer tree, root or not, a name other than `.`/`..` is listed
+by `readdir` on that directory's node exactly when the served tree has it. -/
+theorem serve_is_readdir (om : OpaqueMode) (isRoot : Bool) (base : Nat) (a : Attr) (kids : List (Str × Tree))
+    (ents : List DirEnt) (h : readdir (dirOfTree isRoot base a kids) = some ents) (x : Str)
+    (hx : isDots x = false) :
+    (∃ e ∈ ents, e.name = x) ↔
+      (lookupKid (serveKids om (servedKidsOf isRoot kids) (servedKidsOf isRoot kids)) x).isSome = true :=
+  serve_matches_readdir om isRoot base a kids h x hx
+
 /-! ## The hypotheses of `overlay_equals_oci` are needed -/
 
 private def fA (id tag : Nat) : Attr := ⟨id, S_IFREG ||| 0o644, 0, [], tag⟩
